@@ -57,6 +57,7 @@ pub fn factory_pool(a: &Args) {
     let rt = tokio::runtime::Builder::new_current_thread().enable_time().build().unwrap();
     let slots: Vec<String> = a.str("slots").split(',').filter(|s| !s.is_empty()).map(|s| s.to_string()).collect();
     let busy: Vec<usize> = a.list_u128("busy").iter().map(|x| *x as usize).collect();
-    let out = rt.block_on(fp::pool_step(a.usize("pool_size"), &slots, &busy, a.str("op")));
+    let queued: Vec<usize> = a.list_u128("queued").into_iter().map(|x| x as usize).collect();
+    let out = rt.block_on(fp::pool_step_q(a.usize("pool_size"), &slots, &busy, &queued, a.str("op")));
     println!("out={}", out.replace('=', ":"));
 }
